@@ -51,10 +51,19 @@ type QPlan struct {
 	Strategy int      `json:"strategy,omitempty"`
 	Seq      uint32   `json:"seq"`
 	Inner    bool     `json:"inner_yields,omitempty"` // pre-empt inside the ID caches' critical sections
+	// Iso: "isolation twins". Nothing runs in this process: two fresh child
+	// processes handle the groups one after the other, the first in the order
+	// given and the second in reverse order, and what they return for each
+	// group is compared. IsoOrder is the order a child works in.
+	Iso      bool  `json:"iso,omitempty"`
+	IsoOrder []int `json:"iso_order,omitempty" shrink:"-"`
 }
 
 func (p *QPlan) Valid() bool {
 	if len(p.Groups) > 40 || len(p.Tasks) > 4 || len(p.Tasks) == 0 {
+		return false
+	}
+	if p.Iso && (len(p.Tasks) != 1 || len(p.Tasks[0]) != 0 || len(p.Tape) != 0 || len(p.Groups) < 2 || len(p.Groups) > 8 || p.Inner || p.Strategy != 0) {
 		return false
 	}
 	for _, g := range p.Groups {
@@ -146,8 +155,23 @@ var qTemplates = []qTemplate{
 	}},
 	// 4 SOCKADDR
 	{tSOCKADDR, func(v uint32) string {
+		if v&(1<<9) != 0 {
+			// any address family with a body of any length (0..40 bytes of arbitrary hex), possibly cut in the middle of a byte
+			fam := []string{"0100", "0200", "0A00", "1000", "1100", "0000", "2800", "FFFF"}[int(v>>10)%8]
+			n := int(v>>13) % 41
+			x := uint64(v) | 1
+			b := make([]byte, 0, 2*n+1)
+			for i := 0; i < 2*n; i++ {
+				x = core.SplitMix64(x)
+				b = append(b, "0123456789ABCDEF0000"[x%20])
+			}
+			if v&(1<<20) != 0 && len(b) > 0 {
+				b = b[:len(b)-1]
+			}
+			return "saddr=" + fam + string(b)
+		}
 		return "saddr=" + []string{"02000050A9FEA9FE0000000000000000", "01002F72756E2F6E7363642F736F636B657400", "0A000016000000002001048860480000000000000000888800000000",
-			"100000000000000000000000", "zz", "0200"}[int(v)%6]
+			"100000000000000000000000", "zz", "0200", "0100", "010000", "01", "", "0100006162630000", "0A00", "0A0000160000", "1000", "01002F746D702F78"}[int(v)%15]
 	}},
 	// 5 PROCTITLE
 	{tPROCTITLE, func(v uint32) string {
@@ -221,6 +245,11 @@ var qTemplates = []qTemplate{
 	{1105, func(v uint32) string {
 		return fmt.Sprintf(`pid=%d uid=%s auid=%s ses=%d msg='op=PAM:session_open acct="root" exe="/usr/sbin/sshd" (hostname=10.1.1.%d, addr=10.1.1.%d, terminal=ssh res=success)'`, int(v)%999, pick(v, 4, qUIDs), pick(v, 7, qUIDs), 1+int(v>>10)%9, int(v>>13)%255, int(v>>13)%255)
 	}},
+	// 20 AVC (AppArmor): the same record type as template 6 with another set of fields
+	{tAVC, func(v uint32) string {
+		return fmt.Sprintf(`apparmor="%s" operation="%s" profile="docker-default" pid=%d comm="%s" requested_mask="trace" denied_mask="trace" peer="docker-default"`,
+			[]string{"DENIED", "ALLOWED", "STATUS"}[int(v)%3], []string{"ptrace", "open", "exec"}[int(v>>2)%3], 100+int(v>>4)%900, pick(v, 14, qComms))
+	}},
 }
 
 func (r QRec) line(seq uint32) (auparse.AuditMessageType, string) {
@@ -246,7 +275,7 @@ func GenQPlanFirst(r *core.Rng) *QPlan {
 		case 0:
 			recs = []QRec{{Tmpl: 0, Var: r.U32()}, {Tmpl: 2, Var: r.U32()}, {Tmpl: 5, Var: r.U32()}}
 		case 1:
-			recs = []QRec{{Tmpl: 6, Var: r.U32()}, {Tmpl: 0, Var: r.U32()}}
+			recs = []QRec{{Tmpl: core.Pick(r, 6, 20), Var: r.U32()}, {Tmpl: 0, Var: r.U32()}}
 		default:
 			recs = []QRec{{Tmpl: core.Pick(r, 7, 8, 11, 13), Var: r.U32()}}
 		}
@@ -268,6 +297,10 @@ func GenQPlanFirst(r *core.Rng) *QPlan {
 func GenQPlan(r *core.Rng) *QPlan {
 	p := &QPlan{Seq: core.Pick(r, uint32(1), 0, 1<<32-1, r.U32())}
 	ng := r.Range(1, core.Scale(8, false))
+	iso := r.Chance(1, 500)
+	if iso {
+		ng = r.Range(2, 6)
+	}
 	// per-run pool of record types for "special first record + SYSCALL" groups:
 	// re-using a type within one run makes events share normalisation entries.
 	var specials []uint16
@@ -302,11 +335,11 @@ func GenQPlan(r *core.Rng) *QPlan {
 			if r.Chance(1, 2) {
 				recs = append(recs, QRec{Tmpl: 3, Var: v()})
 			}
-			if r.Chance(1, 3) {
+			if r.Chance(1, 2) {
 				recs = append(recs, QRec{Tmpl: 4, Var: v()})
 			}
 			if r.Chance(1, 5) {
-				recs = append(recs, QRec{Tmpl: core.Pick(r, 15, 6, 14), Var: v()})
+				recs = append(recs, QRec{Tmpl: core.Pick(r, 15, 6, 14, 20), Var: v()})
 			}
 			if r.Chance(1, 2) {
 				recs = append(recs, QRec{Tmpl: 5, Var: v()})
@@ -319,12 +352,12 @@ func GenQPlan(r *core.Rng) *QPlan {
 				recs[i], recs[j] = recs[j], recs[i]
 			}
 		case 1: // single record
-			recs = append(recs, QRec{Tmpl: core.Pick(r, 7, 8, 9, 10, 11, 12, 13, 19, 6, 0, 5), Var: v()})
+			recs = append(recs, QRec{Tmpl: core.Pick(r, 7, 8, 9, 10, 11, 12, 13, 19, 6, 20, 0, 5), Var: v()})
 			if r.Chance(1, 4) {
 				recs[0].Typ = specials[r.Intn(len(specials))]
 			}
 		case 2: // AVC + SYSCALL
-			recs = append(recs, QRec{Tmpl: 6, Var: v()}, QRec{Tmpl: 0, Var: v()})
+			recs = append(recs, QRec{Tmpl: core.Pick(r, 6, 20), Var: v()}, QRec{Tmpl: 0, Var: v()})
 			if r.Chance(1, 2) {
 				recs = append(recs, QRec{Tmpl: 5, Var: v()})
 			}
@@ -337,6 +370,11 @@ func GenQPlan(r *core.Rng) *QPlan {
 		default: // empty
 		}
 		p.Groups = append(p.Groups, recs)
+	}
+	if iso {
+		p.Iso = true
+		p.Tasks = [][]QOp{{}}
+		return p
 	}
 	nt := core.Pick(r, 1, 1, 2, 2, 3)
 	for t := 0; t < nt; t++ {
@@ -382,11 +420,12 @@ const (
 	qpGarbage
 	qpLockBlocked
 	qpLazyFirstRun
+	qpIsoTwins
 	nQProbes
 )
 
 var qProbeNames = []string{"same_messages_coalesced_again", "resolution_after_clock_advance", "coalesce_returned_error", "event_with_warnings",
-	"execve_args_extracted", "event_with_paths", "first_Data_call_inside_coalesce", "ids_resolved_to_names", "two_or_more_tasks", "ecs_category_merged_from_syscall_norm", "garbage_group", "task_blocked_on_cache_lock", "first_run_of_process_without_warm_up"}
+	"execve_args_extracted", "event_with_paths", "first_Data_call_inside_coalesce", "ids_resolved_to_names", "two_or_more_tasks", "ecs_category_merged_from_syscall_norm", "garbage_group", "task_blocked_on_cache_lock", "first_run_of_process_without_warm_up", "isolation_twins_two_fresh_processes_two_orders"}
 
 var qFaultNames = []string{"cache_expiry_clock_jump", "repeated_call_on_same_input", "concurrent_tasks", "malformed_records"}
 
@@ -462,9 +501,15 @@ func canonEvent(ev *aucoalesce.Event, err error) string {
 	return string(b) + " warnings=" + strings.Join(w, "|") + " err=" + fmt.Sprint(err)
 }
 
-func canonMsg(m *auparse.AuditMessage) string {
+func canonMsg(m *auparse.AuditMessage) (out string) {
 	// a hand-rolled canonical form (sorted keys): this runs for every message
 	// of every touched group after every operation
+	defer func() {
+		if r := recover(); r != nil {
+			// the message's accessors panicked; CoalesceMessages on the same lines is judged by its own call
+			out = "accessor-panic: " + fmt.Sprint(r)
+		}
+	}()
 	var b strings.Builder
 	d, derr := m.Data()
 	tags, terr := m.Tags()
@@ -555,6 +600,105 @@ func safeCoalesce(msgs []*auparse.AuditMessage) (ev *aucoalesce.Event, err error
 	}()
 	ev, err = aucoalesce.CoalesceMessages(msgs)
 	return
+}
+
+// isoChildEval is what an isolation-twin child computes: every group, in the
+// order given, parsed, coalesced and resolved against the process-wide caches,
+// in a process that has done nothing else before.
+func isoChildEval(p *QPlan) []byte {
+	out := make([]string, len(p.Groups))
+	for _, gi := range p.IsoOrder {
+		if gi < 0 || gi >= len(p.Groups) {
+			continue
+		}
+		ev, err, pan := safeCoalesce(parseGroup(p.Groups[gi], p.Seq+uint32(gi)))
+		if pan != "" {
+			out[gi] = "panic: " + pan
+			continue
+		}
+		s := canonEvent(ev, err)
+		if ev != nil {
+			func() {
+				defer func() {
+					if r := recover(); r != nil {
+						s += "\nresolve-panic: " + fmt.Sprint(r)
+					}
+				}()
+				aucoalesce.ResolveIDs(ev)
+				s += "\nresolved: " + canonEvent(ev, err)
+			}()
+		}
+		out[gi] = s
+	}
+	b, _ := json.Marshal(out)
+	return b
+}
+
+// isoTwins executes an isolation-twin plan: two fresh processes, two orders,
+// the same answer for every group.
+func isoTwins(p *QPlan, trace bool) *core.Result {
+	if !p.Iso {
+		return nil
+	}
+	res := &core.Result{Probes: make([]int, nQProbes), Faults: make([]int, 4), Verdict: core.VerdictOK}
+	n := len(p.Groups)
+	run := func(rev bool) []string {
+		c := *p
+		c.IsoOrder = nil
+		for i := 0; i < n; i++ {
+			if rev {
+				c.IsoOrder = append(c.IsoOrder, n-1-i)
+			} else {
+				c.IsoOrder = append(c.IsoOrder, i)
+			}
+		}
+		b, err := core.SpawnEval(&c)
+		var out []string
+		if err != nil || json.Unmarshal(b, &out) != nil || len(out) != n {
+			core.AbandonInternal(fmt.Sprintf("isolation twin child failed: %v", err))
+		}
+		return out
+	}
+	fwd, rev := run(false), run(true)
+	h := uint64(14695981039346656037)
+	for gi := 0; gi < n; gi++ {
+		for _, c := range []byte(fwd[gi]) {
+			h = (h ^ uint64(c)) * 1099511628211
+		}
+		if fwd[gi] != rev[gi] {
+			res.Add("C15", "outcome-depends-on-history", "process", fmt.Sprintf("group %d handled in a fresh process after groups %v gives\n  %s\nhandled in a fresh process after groups %v it gives\n  %s",
+				gi, seqInts(0, gi), fwd[gi], seqInts(n-1, gi), rev[gi]))
+			break
+		}
+	}
+	if trace {
+		for gi, recs := range p.Groups {
+			for _, r := range recs {
+				typ, line := r.line(p.Seq + uint32(gi))
+				res.Trace = append(res.Trace, fmt.Sprintf("group %d: type=%d %s", gi, typ, line))
+			}
+			res.Trace = append(res.Trace, fmt.Sprintf("group %d in order 0..%d: %s", gi, n-1, fwd[gi]), fmt.Sprintf("group %d in order %d..0: %s", gi, n-1, rev[gi]))
+		}
+	}
+	res.Probes[qpIsoTwins]++
+	res.TraceHash = h
+	res.Ops = 2 * n
+	res.Nontrivial = true
+	return res
+}
+
+// seqInts lists the integers from a (inclusive) towards b (exclusive).
+func seqInts(a, b int) []int {
+	var out []int
+	for a != b {
+		out = append(out, a)
+		if a < b {
+			a++
+		} else {
+			a--
+		}
+	}
+	return out
 }
 
 // ExecQPlan runs the coalesce-pool plan.
